@@ -345,6 +345,8 @@ CheckCb(tk, e, tk2) ==
     \* ---- C15 / C14 / C06: hold for every callback, whatever the classes define
        V(IF cont THEN TRUE ELSE (tk.dpos = 0 \/ tk.dpos = Len(DeclOrder(tk.dm, tk.ds))) /\ DStart(e),
          "C15", "injections and the state's own callback are not delivered in the declared order, exactly once each")
+    \cup V(start /\ tk.incall /\ tk.dpos > 0 /\ tk.dm = e.m /\ tk.ds = e.s /\ ~IsGuard(e.m) => FALSE,
+           "C15", "one event was delivered twice in a row to the same class: a callback ran more than once")
     \cup V0(e.self = 1, "C14", "the object whose callback runs is not the one access<T>() returns")
     \cup V0(e.s # NONE /\ (IsPhase(e.m) \/ e.m \in {M_ENTER, M_REENTER, M_EXIT, M_EXIT_GUARD}) => e.mact = e.s,
             "C14", "a callback ran on a state other than the one activeStateId() names: the dispatch reached the wrong state")
